@@ -82,6 +82,35 @@ theorem text_roundtrip_client (lib : TextLib F) (hl : TextLib.Lawful lib) (dt cd
     (textComplete_clientOf dt cdt v hc)
   exact ⟨t, v', h1, h2, h3, h4⟩
 
+/-! ### recorded finding: the format law is necessary — where it fails at a double leaf, the text form changes
+
+`'%.1f' % -0.04` is `'-0.0'`, which `from_string` reads as `-0.0 + 0.0 = 0.0`, whose text form is `'0.0'`: the text form
+offered for the valid value `-0.04` maps to a value with another text form (`known_findings/C02.json`,
+`C02:text:form-changed:neg-zero-text`).  The two library facts are tested on the implementation side; the rest is this theorem. -/
+
+theorem text_form_changes_where_format_law_fails (lib : TextLib F) (min max ar rr x : F) (w : PVal F) (r : F)
+    (h1 : lib.evalAtom (lib.fmtFloat [] x) = some w) (h2 : PVal.toFloat? w = some r) (hn : FloatOps.isNaN r = false)
+    (h3 : lib.fmtFloat [] (FloatOps.median3 (FloatOps.neg FloatOps.maxFinite) r FloatOps.maxFinite) ≠ lib.fmtFloat [] x) :
+    ∃ t v', toString lib (.double min max ar rr) (.float x) = some t ∧ fromString lib (.double min max ar rr) t = .ok v' ∧
+      toString lib (.double min max ar rr) v' ≠ some t := by
+  refine ⟨.syn (.atom (lib.fmtFloat [] x)), .float (FloatOps.median3 (FloatOps.neg FloatOps.maxFinite) r FloatOps.maxFinite), rfl, ?_, ?_⟩
+  · simp [fromString, literalEval, h1, call, conv, doubleCall_of_number h2 hn, Except.map]
+  · intro h
+    simp only [Datatypes.toString, formatValue, fmtNumber, Option.map_some, Option.some.injEq, Text.syn.injEq, Surf.atom.injEq] at h
+    exact h3 h
+
+/-- the same at a scaled leaf (`ScaledInteger(0.01).from_string('-0.0')` is `0.0`) -/
+theorem text_form_changes_where_format_law_fails_scaled (lib : TextLib F) (scale min max ar rr x : F) (w : PVal F) (r y : F)
+    (h1 : lib.evalAtom (lib.fmtFloat [] x) = some w) (h2 : PVal.toFloat? w = some r) (hs : DType.snap scale r = some y)
+    (hf : FloatOps.isFinite y = true) (h3 : lib.fmtFloat [] y ≠ lib.fmtFloat [] x) :
+    ∃ t v', toString lib (.scaled scale min max ar rr) (.float x) = some t ∧
+      fromString lib (.scaled scale min max ar rr) t = .ok v' ∧ toString lib (.scaled scale min max ar rr) v' ≠ some t := by
+  refine ⟨.syn (.atom (lib.fmtFloat [] x)), .float y, rfl, ?_, ?_⟩
+  · simp [fromString, literalEval, h1, call, conv, scaledCall_of_number h2 hs hf, Except.map]
+  · intro h
+    simp only [Datatypes.toString, formatValue, fmtNumber, Option.map_some, Option.some.injEq, Text.syn.injEq, Surf.atom.injEq] at h
+    exact h3 h
+
 /-! ## what `setParameterFromString` puts on the wire imports, on the node, to the value the text was read as -/
 
 /-- for every valid canonical value `v` held in the client's cache (a value of the rebuilt type `cdt`), the text
@@ -206,6 +235,30 @@ example (hb : B64Law) : ∃ j item t v' j' v'', exportValue exTree exValue = .ok
   client_cache_string_write exLib exLib_lawful hb exTree exClient exTree_wf exTree_limits exClient_eq
     exValue exValue_valid
     (by simp [exValue, Canon, CanonFields, CanonList, FloatOps.same, FloatOps.addZero])
+
+/-- a library whose float format is not idempotent at `1` (it prints `1` as a text that reads back as `0`, which prints
+otherwise): the hypotheses of `text_form_changes_where_format_law_fails` are satisfiable -/
+def exLibBad : TextLib Rat := { exLib with fmtFloat := fun _ x => if x = 1 then "i+" else "f" }
+
+example : ∃ t v', toString exLibBad (.double 0 10 0 0) (.float (1 : Rat)) = some t ∧
+    fromString exLibBad (.double 0 10 0 0) t = .ok v' ∧ toString exLibBad (.double 0 10 0 0) v' ≠ some t :=
+  text_form_changes_where_format_law_fails exLibBad 0 10 0 0 1 (.int 0) 0
+    (by
+      have : "i+".toList = ['i', '+'] := by decide +kernel
+      simp [exLibBad, exLib, this])
+    rfl rfl
+    (by
+      have h : FloatOps.median3 (FloatOps.neg FloatOps.maxFinite) (0 : Rat) FloatOps.maxFinite = 0 := by decide +kernel
+      simp only [h]
+      simp [exLibBad])
+
+example : ∃ t v', toString exLibBad (.scaled (1/10) 0 10 0 0) (.float (1 : Rat)) = some t ∧
+    fromString exLibBad (.scaled (1/10) 0 10 0 0) t = .ok v' ∧ toString exLibBad (.scaled (1/10) 0 10 0 0) v' ≠ some t :=
+  text_form_changes_where_format_law_fails_scaled exLibBad (1/10) 0 10 0 0 1 (.int 0) 0 0
+    (by
+      have : "i+".toList = ['i', '+'] := by decide +kernel
+      simp [exLibBad, exLib, this])
+    rfl (by decide +kernel) (by decide +kernel) (by simp [exLibBad])
 
 /-- a tree without struct for the text theorem: `array of tuple(enum)` (one-member tuples) -/
 def exTextTree : DType Rat := .array (.tuple [.enum [("off", 0), ("on", 1)]]) 0 3
